@@ -95,6 +95,22 @@ func schema0(r *rand.Rand, o SchemaOpts) any {
 			}
 			defs[fmt.Sprintf("d%d", i)] = d
 		}
+		if o.Draft == D7 && g.ndefs >= 2 && r.IntN(4) == 0 {
+			// a fragment $id BESIDE a $ref is ignored like every other sibling (draft-07): the name it carries belongs to the
+			// definition that legitimately declares it further down (or to nobody)
+			first, _ := defs["d0"].(map[string]any)
+			last, _ := defs[fmt.Sprintf("d%d", g.ndefs-1)].(map[string]any)
+			if first != nil && last != nil {
+				if _, lastHasRef := last["$ref"]; !lastHasRef {
+					if _, has := first["$ref"]; !has {
+						first["$ref"] = fmt.Sprintf("#/definitions/d%d", g.ndefs-1)
+					}
+					name := fmt.Sprintf("#A%d", g.ndefs-1)
+					last["$id"] = name
+					first["$id"] = name
+				}
+			}
+		}
 		if o.Draft == D7 {
 			obj["definitions"] = defs
 		} else {
